@@ -84,7 +84,11 @@ pub fn cell(spec: &Value) -> Value {
     let mut stack: Vec<Vec<usize>> = vec![prefix.clone()];
     let mut outcomes: std::collections::BTreeSet<u64> = Default::default();
     let mut sampled = false;
+    let budget = Budget::new();
     while let Some(idx) = stack.pop() {
+        if budget.over(&mut c) {
+            break;
+        }
         if idx.len() < prefix.len() + more {
             for &t in allowed.iter().rev() {
                 let mut n = idx.clone();
